@@ -3,7 +3,7 @@
 # 1. confirms the seed in its scratch worktree /tmp/wt-<Cxx>: applies, builds, 55 tests pass, demo fails; reverted: demo passes
 # 2. applies it to /repo, runs ./check <id> quick for each id (default: the property), reverts /repo
 P=$1; PATCH=$2; EX=$3; shift 3; IDS=${@:-$P}
-WT=/tmp/wt-$P; export CARGO_TARGET_DIR=$WT/target
+WT=${WTDIR:-/tmp/wt-$P}; export CARGO_TARGET_DIR=$WT/target
 FEAT="--features executor,block_on,signals,stream,futures-io"
 cd $WT || exit 9
 git checkout -q -- src; git apply $PATCH || { echo "APPLY-FAILED"; exit 9; }
